@@ -26,6 +26,41 @@ func init() { wk.Register("c14", c14) }
 var c14words = []string{"alpha", "bravo", "chat", "delta", "echo", "file", "geo", "hash", "item", "joke", "key", "lang", "media", "note", "offer", "peer", "query", "range", "state", "theme", "user", "video", "wall", "xray", "yard", "zone"}
 var c14ns = []string{"", "", "", "auth", "messages", "help", "a1"}
 
+// names real schemas use that are awkward for a Go generator: keywords, predeclared identifiers, packages the
+// generated files import, locals and receivers of the generated bodies
+var c14awkward = []string{"ok", "err", "resp", "c", "type", "errors", "range", "func", "reflect", "params", "data", "bytes", "len", "error", "string", "tl", "msg", "id", "url", "hash",
+	"var", "map", "chan", "go", "select", "default", "interface", "struct", "package", "import", "return", "switch", "case", "for", "if", "else", "break", "const", "continue", "defer", "fallthrough", "goto",
+	"nil", "true", "false", "iota", "int", "int32", "int64", "float64", "bool", "byte", "any", "new", "make", "append", "cap", "copy", "panic", "recover", "print", "fmt", "request", "response", "result", "res", "e", "m", "i", "v", "b", "t", "x", "self", "this", "client", "ctx", "query"}
+
+// awkwardSchemas: every awkward name used as a parameter of a constructor and of functions returning an object, a
+// Bool and a vector (the generated bodies differ), so that none of them depends on the PRNG to be met.
+func awkwardSchemas() []string {
+	var out []string
+	per := 12
+	for lo := 0; lo < len(c14awkward); lo += per {
+		hi := lo + per
+		if hi > len(c14awkward) {
+			hi = len(c14awkward)
+		}
+		var sb strings.Builder
+		r := rand.New(rand.NewSource(int64(lo) + 99))
+		sb.WriteString(c14line("thing", "count:int ", "Thing", r) + "\n")
+		sb.WriteString(c14line("otherThing", "flags:# count:flags.0?int ", "Thing", r) + "\n")
+		for i, w := range c14awkward[lo:hi] {
+			sb.WriteString(c14line(fmt.Sprintf("holder%d", lo+i), fmt.Sprintf("%s:int second:string ", w), fmt.Sprintf("Holder%d", lo+i), r) + "\n")
+		}
+		sb.WriteString("---functions---\n")
+		for i, w := range c14awkward[lo:hi] {
+			sb.WriteString(c14line(fmt.Sprintf("getObj%d", lo+i), fmt.Sprintf("%s:int ", w), "Thing", r) + "\n")
+			sb.WriteString(c14line(fmt.Sprintf("getBool%d", lo+i), fmt.Sprintf("first:long %s:string ", w), "Bool", r) + "\n")
+			sb.WriteString(c14line(fmt.Sprintf("getVec%d", lo+i), fmt.Sprintf("flags:# %s:flags.1?Thing ", w), "Vector<Thing>", r) + "\n")
+			sb.WriteString(c14line(fmt.Sprintf("getInts%d", lo+i), fmt.Sprintf("%s:Vector<int> ", w), "Vector<long>", r) + "\n")
+		}
+		out = append(out, sb.String())
+	}
+	return out
+}
+
 type c14gen struct {
 	r     *rand.Rand
 	used  map[string]bool
@@ -116,7 +151,7 @@ func (g *c14gen) params() string {
 			}
 			if g.r.Intn(12) == 0 {
 				// names real schemas use that are awkward for a Go generator (keywords, imported packages, locals of the generated body)
-				w = []string{"ok", "err", "resp", "c", "type", "errors", "range", "func", "reflect", "params", "data", "bytes", "len", "error", "string", "tl", "msg", "id", "url", "hash"}[g.r.Intn(20)]
+				w = c14awkward[g.r.Intn(len(c14awkward))]
 			}
 			k := strings.ReplaceAll(w, "_", "")
 			if !names[k] && w != "flags" {
@@ -287,6 +322,12 @@ func c14(c *wk.Ctx) {
 				label = "random+plain-comments"
 			}
 			cases = append(cases, c14case{tag: fmt.Sprintf("s%d", idx), text: genSchemaText(r, plain), label: label})
+		}
+		idx++
+	}
+	for _, text := range awkwardSchemas() {
+		if c.Mine(idx) {
+			cases = append(cases, c14case{tag: fmt.Sprintf("s%d", idx), text: text, label: "awkward-names"})
 		}
 		idx++
 	}
